@@ -108,7 +108,7 @@ def generic_ops(with_all):
 
 def struct_ops(c08):
     return [
-        ("get_struct", "h_get_struct", "dyn_array_get_struct", {}),
+        ("get_struct", "h_get_struct", "dyn_array_get_struct", dict(defines={"VERIF_EXIT_COVER": 1})),   # out of range ends in exit(1) (ca10dd0): must be reachable
         ("set_struct", "h_set_struct", "dyn_array_set_struct", dict(defines=ABORT, replace=["memcpy"])),
         ("pop_struct", "h_pop_struct", "dyn_array_pop_struct",
          dict(defines={"VERIF_EXPECT_ABORT": 1, "VERIF_GHOST_OFF": 1}, replace=["memcpy"])),
